@@ -194,9 +194,25 @@ def Sc.isFloat : Sc → Bool
 def toInt (w : Nat) (n : Nat) : Int :=
   if n < 2 ^ (8 * w - 1) then (n : Int) else (n : Int) - (2 ^ (8 * w) : Nat)
 
-/-- `operator<` of the integer types (floats are not used as keys: `false`) -/
+/-! IEEE-754 `operator<` on the raw bit patterns (`float` = 4 bytes, `double` = 8
+bytes): a NaN compares `false` with everything; otherwise the order is the order
+of the sign-magnitude integers, `-0.0` and `+0.0` both at 0 (they compare equal). -/
+
+/-- exponent all ones and a non-zero mantissa -/
+def isNaN : Sc → Nat → Bool
+  | .f32, n => decide (0x7f800000 < n % 0x80000000)
+  | .f64, n => decide (0x7ff0000000000000 < n % 0x8000000000000000)
+  | _, _ => false
+
+/-- place of a non-NaN `w`-byte IEEE pattern on the number line: sign bit set →
+minus the magnitude bits, else the magnitude bits (monotone in the value; ±0 ↦ 0) -/
+def fOrd (w : Nat) (n : Nat) : Int :=
+  if n / 2 ^ (8 * w - 1) % 2 = 1 then -((n % 2 ^ (8 * w - 1) : Nat) : Int) else ((n % 2 ^ (8 * w - 1) : Nat) : Int)
+
+/-- `operator<` of the arithmetic types: integers numerically (two's complement for
+the signed ones), `float`/`double` by IEEE `<` -/
 def scLt (k : Sc) (a b : Nat) : Bool :=
-  if k.isFloat then false
+  if k.isFloat then !isNaN k a && !isNaN k b && decide (fOrd k.width a < fOrd k.width b)
   else if k.signed then decide (toInt k.width a < toInt k.width b) else decide (a < b)
 
 /-- `std::string::operator<`: lexicographic on `unsigned char`, a proper prefix is smaller -/
@@ -205,12 +221,60 @@ def bytesLt : List Byte → List Byte → Bool
   | [], _ :: _ => true
   | a :: as, b :: bs => if a.toNat < b.toNat then true else if b.toNat < a.toNat then false else bytesLt as bs
 
-/-- `operator<` of the key types of the family: integers, std::string, std::pair of keys -/
+/-- `std::lexicographical_compare` (= `operator<` of `std::vector`, and of `std::map`
+over its entries): the first position where one element is smaller decides; a
+proper prefix is smaller -/
+def lexBy (lt : Val → Val → Bool) : List Val → List Val → Bool
+  | _, [] => false
+  | [], _ :: _ => true
+  | a :: as, b :: bs => if lt a b then true else if lt b a then false else lexBy lt as bs
+
+/-- `operator<` of `std::pair`: `x.first < y.first || (!(y.first < x.first) && x.second < y.second)` -/
+def pairLt (l1 l2 : Val → Val → Bool) (x y : Val) : Bool :=
+  l1 x.fst y.fst || (!l1 y.fst x.fst && l2 x.snd y.snd)
+
+mutual
+/-- `std::less<K>` = `operator<` of EVERY type of the universe, the order
+`std::map<K, …>` keeps its entries in: arithmetic types numerically (IEEE `<` for
+float/double), `std::string` bytewise, `std::vector` / `std::pair` / `std::tuple`
+lexicographically over the order of their components, a `std::map` used as a key
+lexicographically over its entries (each a `std::pair`).  A user type has no
+`operator<` of its own; it is given the usual one, `std::tie(fields…) < std::tie(fields…)`
+(what the harness' key type `UK` declares).  `igris::buffer` cannot be a key
+(no `load` for it inside a container); it is given the byte order of strings. -/
 def keyLt : Ty → Val → Val → Bool
   | .sc k, x, y => scLt k x.bits y.bits
   | .str, x, y => bytesLt x.bs y.bs
-  | .pair a b, x, y => keyLt a x.fst y.fst || (!keyLt a y.fst x.fst && keyLt b x.snd y.snd)
-  | _, _, _ => false
+  | .buf, x, y => bytesLt x.bs y.bs
+  | .vec t, x, y => lexBy (keyLt t) x.items y.items
+  | .pair a b, x, y => pairLt (keyLt a) (keyLt b) x y
+  | .tuple ts, x, y => keyLtFields ts x.items y.items
+  | .map k t, x, y => lexBy (pairLt (keyLt k) (keyLt t)) x.items y.items
+  | .struct fs, x, y => keyLtFields fs x.items y.items
+/-- `operator<` of `std::tuple` (and of `std::tie` of the fields of a user type) -/
+def keyLtFields : List Ty → List Val → List Val → Bool
+  | [], _, _ => false
+  | t :: ts, xs, ys =>
+    keyLt t (xs.headD default) (ys.headD default) ||
+      (!keyLt t (ys.headD default) (xs.headD default) && keyLtFields ts xs.tail ys.tail)
+end
+
+mutual
+/-- no NaN anywhere inside the value: exactly the keys on which `operator<` is a
+strict weak order (the requirement `std::map` puts on its `Compare`) -/
+def keyClean : Ty → Val → Bool
+  | .sc k, v => !isNaN k v.bits
+  | .str, _ => true
+  | .buf, _ => true
+  | .vec t, v => v.items.all (keyClean t)
+  | .pair a b, v => keyClean a v.fst && keyClean b v.snd
+  | .tuple ts, v => keyCleanFields ts v.items
+  | .map k t, v => v.items.all (fun kv => keyClean k kv.fst && keyClean t kv.snd)
+  | .struct fs, v => keyCleanFields fs v.items
+def keyCleanFields : List Ty → List Val → Bool
+  | [], _ => true
+  | t :: ts, vs => keyClean t (vs.headD default) && keyCleanFields ts vs.tail
+end
 
 /-- `std::map::insert(value_type)`: no effect when an equivalent key is present -/
 def mapInsert (kt : Ty) (kv : Val) : List Val → List Val
@@ -363,10 +427,14 @@ end
 
 /-! ### well-formed values: the domain of the round-trip theorems -/
 
-/-- consecutive map entries are in strictly increasing key order (what
-iterating a std::map yields) -/
+/-- two entries of one map, the first before the second: strictly increasing
+key order (what iterating a std::map yields) and — because a map with two or more
+entries has compared its keys — keys without NaN (`std::map` requires a strict
+weak order; NaN breaks it, see `key_order_nan_witness`).  A map with a single
+entry may have any key. -/
 def keyOrdered (kt : Ty) (a b : Val) : Prop :=
-  keyLt kt a.fst b.fst = true ∧ keyLt kt b.fst a.fst = false
+  keyLt kt a.fst b.fst = true ∧ keyLt kt b.fst a.fst = false ∧
+    keyClean kt a.fst = true ∧ keyClean kt b.fst = true
 
 mutual
 /-- `v` is a value of C++ type `ty`: scalars fit their width, strings/buffers
@@ -406,7 +474,8 @@ def wfb : Ty → Val → Bool
       kvs.all (fun kv => match kv with
         | .list [x, y] => wfb k x && wfb t y
         | _ => false) &&
-      pairwiseB (fun a b => keyLt k a.fst b.fst && !keyLt k b.fst a.fst) kvs
+      pairwiseB (fun a b => keyLt k a.fst b.fst && !keyLt k b.fst a.fst &&
+        keyClean k a.fst && keyClean k b.fst) kvs
   | .struct fs, .list vs => wfbs fs vs
   | _, _ => false
 def wfbs : List Ty → List Val → Bool
